@@ -85,11 +85,31 @@ type acaseT struct {
 	// Tail: a last path segment captured by a :tail parameter, any bytes but '/' (percent-encoded on
 	// the wire); it reaches the body through req.URL.Path (RFC 9457 `instance`)
 	Tail bstr `json:",omitempty"`
+	// AcceptAdd: the request arrives with its Accept header in two field lines? No — the second line is added while
+	// the request is served: the global middleware negotiates something of its own first (c.Accepts for a view
+	// format), the failing handler then appends this field line (a compatibility shim for old clients) and fails.
+	// What the client accepts is the joined list, which is what the oracle and the real Accepts (asked on a fresh
+	// request carrying both lines) see.
+	AcceptAdd string `json:",omitempty"`
+}
+
+// accept: the Accept header as the failing handler sees it (field lines joined)
+func (k acaseT) acceptSeen() *string {
+	if k.AcceptAdd == "" {
+		return k.Accept
+	}
+	if k.Accept == nil {
+		s := k.AcceptAdd
+		return &s
+	}
+	s := *k.Accept + ", " + k.AcceptAdd
+	return &s
 }
 
 // ocaseT: overlapping failing requests on one app. Request 0 is served on its own goroutine with a
 // ResponseWriter that parks inside WriteHeader ("h") or inside its first Write ("w") until the other
-// requests (different errors) have been served completely; then it is released. Every response is
+// requests (different errors) have been served completely; then it is released. Park "d": it parks inside the
+// first Details() call of its error instead, i.e. in the middle of Formatter.Format. Every response is
 // judged on its own by the ordinary oracle.
 type ocaseT struct {
 	Opts []optT
@@ -295,7 +315,9 @@ type capHandler struct{}
 func (capHandler) Enabled(context.Context, slog.Level) bool { return true }
 func (capHandler) WithAttrs([]slog.Attr) slog.Handler       { return capHandler{} }
 func (capHandler) WithGroup(string) slog.Handler            { return capHandler{} }
-func (capHandler) Handle(_ context.Context, r slog.Record) error {
+type slotKey struct{}
+
+func (capHandler) Handle(ctx context.Context, r slog.Record) error {
 	if r.Message != "handler error" {
 		return nil
 	}
@@ -314,7 +336,11 @@ func (capHandler) Handle(_ context.Context, r slog.Record) error {
 		return true
 	})
 	capMu.Lock()
-	capLogs[curSlot] = append(capLogs[curSlot], rec)
+	slot := curSlot
+	if v, ok := ctx.Value(slotKey{}).(int); ok { // recorder requests carry their slot in the request context
+		slot = v
+	}
+	capLogs[slot] = append(capLogs[slot], rec)
 	capMu.Unlock()
 	return nil
 }
@@ -345,7 +371,13 @@ func handlerAt(i int) app.HandlerFunc {
 			c.Header("Content-Type", *k.PreCT)
 			c.Header("X-Prepared", "1")
 		}
+		if i == 0 && k.AcceptAdd != "" {
+			_ = c.Accepts("text/html", "application/json", "application/xml")
+		}
 		if i == k.Pos {
+			if k.AcceptAdd != "" {
+				c.Request.Header.Add("Accept", k.AcceptAdd)
+			}
 			if k.AbortFirst {
 				c.Abort()
 			}
@@ -547,6 +579,7 @@ func serve(b *builtApp, wire, path string, accept *string, slot int) (status int
 	}
 	rec := httptest.NewRecorder()
 	req := httptest.NewRequest(http.MethodGet, path, nil)
+	req = req.WithContext(context.WithValue(req.Context(), slotKey{}, slot))
 	req.Header.Set("X-Slot", strconv.Itoa(slot))
 	if accept != nil {
 		req.Header.Set("Accept", *accept)
@@ -610,7 +643,7 @@ func observe(slot, st int, ct string, body []byte, panicked bool) obsT {
 
 func runA(k acaseT) (obsT, []string) {
 	b := getApp(k.Opts, k.NoCancelCheck, k.Prod)
-	answers := answersFor(b, k.Accept)
+	answers := answersFor(b, k.acceptSeen())
 	arm(0, &k)
 	st, ct, body, panicked := serve(b, k.Wire, k.route(), k.Accept, 0)
 	return observe(0, st, ct, body, panicked), answers
@@ -661,15 +694,20 @@ func runO(k ocaseT) ([]obsT, [][]string) {
 	n := len(k.Reqs)
 	answers := make([][]string, n)
 	for i := range k.Reqs {
-		answers[i] = answersFor(b, k.Reqs[i].Accept)
+		answers[i] = answersFor(b, k.Reqs[i].acceptSeen())
 	}
+	pw := &parkWriter{h: http.Header{}, park: k.Park, parked: make(chan struct{}), release: make(chan struct{})}
 	for i := range k.Reqs {
+		if i == 0 && k.Park == "d" {
+			// request 0 parks inside the first Details() call of its error (a lookup that takes its time)
+			detailsHook = pw.stall
+		}
 		arm(i, &k.Reqs[i])
+		detailsHook = nil
 	}
 	// one P: the goroutines of the overlapping requests share its sync.Pool slots, as requests on a
 	// busy server do
 	defer runtime.GOMAXPROCS(runtime.GOMAXPROCS(1))
-	pw := &parkWriter{h: http.Header{}, park: k.Park, parked: make(chan struct{}), release: make(chan struct{})}
 	finished := make(chan bool, 1)
 	go func() {
 		panicked := false
@@ -680,6 +718,7 @@ func runO(k ocaseT) ([]obsT, [][]string) {
 			finished <- panicked
 		}()
 		req := httptest.NewRequest(http.MethodGet, k.Reqs[0].route(), nil)
+		req = req.WithContext(context.WithValue(req.Context(), slotKey{}, 0))
 		req.Header.Set("X-Slot", "0")
 		if k.Reqs[0].Accept != nil {
 			req.Header.Set("Accept", *k.Reqs[0].Accept)
@@ -1030,8 +1069,8 @@ func lineA(id string, k acaseT, o obsT, answers []string, st *hx.Stats) string {
 			l.Tok("D").Str(*op.D)
 		}
 	}
-	if k.Accept != nil {
-		l.Bool(true).Str(*k.Accept)
+	if acc := k.acceptSeen(); acc != nil {
+		l.Bool(true).Str(*acc)
 	} else {
 		l.Bool(false)
 	}
@@ -1086,6 +1125,9 @@ func lineA(id string, k acaseT, o obsT, answers []string, st *hx.Stats) string {
 		}
 		if k.Prod {
 			st.Count("fail_production_environment")
+		}
+		if k.AcceptAdd != "" {
+			st.Count("fail_after_accept_line_added_mid_request")
 		}
 		if badSeen {
 			st.Count("fail_details_unencodable")
